@@ -1800,7 +1800,57 @@ class ModelObj:
 
 
 def model_class(cls_ast: ast.ClassDef, name: str = "Model"):
-    return type(name, (ModelObj,), {"_methods": dict(methods(cls_ast))})
+    ms = dict(methods(cls_ast))
+    ns: Dict[str, object] = {"_methods": ms}
+    for mname, m in ms.items():
+        if mname in ("__init__", "__repr__", "__str__", "__getattr__", "__setattr__", "__hash__", "__eq__", "__new__", "__del__"):
+            continue
+        decos = {(dotted(d) or "").split(".")[-1] for d in getattr(m, "decorator_list", [])}
+        if "staticmethod" in decos:
+            ns[mname] = staticmethod(lambda *a, _m=m, **k: MiniEval.call(_m, a, k))
+        elif "classmethod" in decos:
+            ns[mname] = classmethod(lambda c, *a, _m=m, **k: MiniEval.call(_m, (c,) + a, k))
+        elif "property" in decos:
+            ns[mname] = property(lambda self_, _m=m: MiniEval.call(_m, (self_,), {}))
+        else:
+            ns[mname] = (lambda self_, *a, _m=m, **k: MiniEval.call(_m, (self_,) + a, k))
+    return type(name, (ModelObj,), ns)
+
+
+def single_assignment_locals(func) -> Dict[str, ast.AST]:
+    """Locals of ``func`` bound exactly once by a plain (annotated) assignment -> their value expression."""
+    count: Dict[str, int] = {}
+    val: Dict[str, ast.AST] = {}
+    for st in ast.walk(func):
+        tgts = []
+        if isinstance(st, ast.Assign):
+            tgts = [(t, st.value) for t in st.targets]
+        elif isinstance(st, ast.AnnAssign) and st.value is not None:
+            tgts = [(st.target, st.value)]
+        elif isinstance(st, (ast.AugAssign, ast.For, ast.AsyncFor, ast.With, ast.AsyncWith, ast.NamedExpr)):
+            for n in ast.walk(st.target if hasattr(st, "target") else st):
+                if isinstance(n, ast.Name) and isinstance(n.ctx, ast.Store):
+                    count[n.id] = count.get(n.id, 0) + 2
+        for t, v in tgts:
+            if isinstance(t, ast.Name):
+                count[t.id] = count.get(t.id, 0) + 1
+                val[t.id] = v
+            else:
+                for n in ast.walk(t):
+                    if isinstance(n, ast.Name) and isinstance(n.ctx, ast.Store):
+                        count[n.id] = count.get(n.id, 0) + 2
+    return {k: v for k, v in val.items() if count.get(k) == 1}
+
+
+def resolve_locals(func, e: ast.AST, rounds: int = 3) -> ast.AST:
+    """``e`` with single-assignment locals of ``func`` replaced by their defining expressions."""
+    al = single_assignment_locals(func)
+    params = {a.arg for a in func.args.posonlyargs + func.args.args + func.args.kwonlyargs}
+    al = {k: v for k, v in al.items() if k not in params}
+    out = clone(e)
+    for _ in range(rounds):
+        out = _Subst(al).visit(out)
+    return out
 
 
 _MINI_BUILTINS = {"len": len, "max": max, "min": min, "abs": abs, "range": range, "list": list, "sorted": sorted, "int": int,
